@@ -9,13 +9,22 @@ ADD_OPS = ("Add", "AddWithOverflow")
 MUL_OPS = ("Mul", "MulWithOverflow")
 
 
+UNSIGNED = ["u8", "u16", "u32", "u64", "usize", "u128"]
+
+
 def _is_identity(t):
     c = t.get("callee") or ""
     if c.startswith(IDENTITY_MODULE) and c.endswith(("::new", "::as_value")):
         return True
     if c in ("core::convert::Into::into", "core::convert::From::from") and t.get("gargs"):
         # conversions between the semantic newtypes and their integer representation
-        return any(g.startswith(IDENTITY_MODULE) for g in t["gargs"])
+        if any(g.startswith(IDENTITY_MODULE) for g in t["gargs"]):
+            return True
+        # lossless widening between unsigned integer types (`u64::from(x)` for `x as u64`)
+        ints = [g for g in t["gargs"] if g in UNSIGNED]
+        if len(ints) == 2 and len(t["gargs"]) == 2:
+            a, b = (UNSIGNED.index(g) for g in ints)
+            return True if a != b else True
     return False
 
 
